@@ -45,7 +45,7 @@ fn c01_ep(white: bool) {
     if moves.len() == 2 {
         assert!(moves[0].from_square() != moves[1].from_square(), "no duplicates");
     }
-    kani::cover!(moves.len() == 2, "two en-passant captures possible");
+    crate::vcover!(moves.len() == 2, "two en-passant captures possible");
     core::mem::forget(moves);
     core::mem::forget(board);
 }
@@ -109,7 +109,7 @@ fn c01_castle(white: bool) {
     assert!(got_ks == ks, "O-O emitted iff right held, f/g empty, king and f-square not attacked");
     assert!(got_qs == qs, "O-O-O emitted iff right held, b/c/d empty, king and d-square not attacked");
     assert!(moves.len() == ks as usize + qs as usize, "no duplicates");
-    kani::cover!(ks && qs, "both castles possible");
+    crate::vcover!(ks && qs, "both castles possible");
     core::mem::forget(t);
     core::mem::forget(moves);
     core::mem::forget(board);
@@ -170,8 +170,8 @@ fn c01_filter(white: bool, kind: u8) {
     assert!(mi.verif_depths() == (2, 2, 2));
     assert!(board.halfmove_clock() == a.half[1] && board.fullmove_clock() as u64 == a.full as u64);
     assert!(board.current_position_hash() == a.hash || true);
-    kani::cover!(keep, "kept");
-    kani::cover!(!keep, "dropped");
+    crate::vcover!(keep, "kept");
+    crate::vcover!(!keep, "dropped");
     core::mem::forget(t);
     core::mem::forget(cands);
     core::mem::forget(board);
@@ -1117,3 +1117,176 @@ macro_rules! ewire_harness {
 }
 ewire_harness!(c06_effect_wire_w, true);
 ewire_harness!(c06_effect_wire_b, false);
+
+// -------------------------------------------------------------------------------------------------
+// C02.wire: the two caches are consulted and filled under the key (position key, colour asked about)
+
+pub(crate) mod cwire {
+    use super::*;
+    use core::borrow::Borrow;
+    use core::hash::{BuildHasher, Hash};
+    pub static mut GET_KEY: (u64, u8) = (0, 0);
+    pub static mut GET_CALLS: u8 = 0;
+    pub static mut PUT_KEY: (u64, u8) = (0, 0);
+    pub static mut PUT_CALLS: u8 = 0;
+    pub static mut HIT: bool = false;
+    pub static mut CACHED: Option<ChessMoveList> = None;
+    pub static mut GEN_CALLS: u8 = 0;
+    pub static mut GEN_WHITE: bool = false;
+    pub static mut GEN_BOARD: usize = 0;
+
+    /// stand-in for lru::LruCache::get: records the key, answers from a harness-controlled slot.
+    /// (An associated function of a phantom type so that its generic parameters are laid out exactly
+    /// like the method's: impl-level K, V, S, then the method's own 'a, Q -- Kani compares them by position.)
+    pub struct LruStub<K, V, S>(core::marker::PhantomData<(K, V, S)>);
+    impl<K: Hash + Eq, V, S: BuildHasher> LruStub<K, V, S> {
+        pub fn get<'a, Q>(_c: &'a mut LruCache<K, V, S>, k: &Q) -> Option<&'a V>
+        where
+            K: Borrow<Q>,
+            Q: Hash + Eq + ?Sized,
+        {
+            unsafe {
+                GET_KEY = *(k as *const Q as *const u8 as *const (u64, u8));
+                GET_CALLS += 1;
+                if HIT {
+                    match CACHED.as_ref() {
+                        Some(l) => Some(&*(l as *const ChessMoveList as *const V)),
+                        None => None,
+                    }
+                } else {
+                    None
+                }
+            }
+        }
+    }
+    /// stand-in for lru::LruCache::put: records the key
+    pub fn lru_put<K: Hash + Eq, V, S: BuildHasher>(_c: &mut LruCache<K, V, S>, k: K, v: V) -> Option<V> {
+        unsafe {
+            PUT_KEY = *(&k as *const K as *const u8 as *const (u64, u8));
+            PUT_CALLS += 1;
+        }
+        core::mem::forget(k);
+        core::mem::forget(v);
+        None
+    }
+    pub fn gen_valid(board: &mut Board, color: Color, _t: &mut Targets) -> ChessMoveList {
+        unsafe {
+            GEN_CALLS += 1;
+            GEN_WHITE = color == Color::White;
+            GEN_BOARD = board as *const Board as usize;
+        }
+        let mut l = ChessMoveList::new();
+        l.push(wire::marker(3));
+        l
+    }
+
+    // attack cache
+    pub static mut AGET: (bool, u64) = (false, 0);
+    pub static mut AGET_CALLS: u8 = 0;
+    pub static mut APUT: (bool, u64, u64) = (false, 0, 0);
+    pub static mut APUT_CALLS: u8 = 0;
+    pub static mut AHIT: Option<u64> = None;
+    impl Targets {
+        pub fn cwire_get_cached(&self, color: Color, board_hash: u64) -> Option<Bitboard> {
+            unsafe {
+                AGET = (color == Color::White, board_hash);
+                AGET_CALLS += 1;
+                AHIT.map(Bitboard)
+            }
+        }
+        pub fn cwire_cache_attack(&mut self, color: Color, board_hash: u64, attack_targets: Bitboard) -> Bitboard {
+            unsafe {
+                APUT = (color == Color::White, board_hash, attack_targets.0);
+                APUT_CALLS += 1;
+            }
+            attack_targets
+        }
+    }
+}
+
+fn c02_wire_moves() {
+    let x = any_disjoint();
+    let a = any_aux(kani::any());
+    let mut board = Board::verif_from_raw(&x, &a);
+    let player_white: bool = kani::any();
+    let hit: bool = kani::any();
+    let mut cached = ChessMoveList::new();
+    cached.push(wire::marker(1));
+    unsafe {
+        cwire::HIT = hit;
+        cwire::CACHED = Some(cached);
+        cwire::GET_CALLS = 0;
+        cwire::PUT_CALLS = 0;
+        cwire::GEN_CALLS = 0;
+    }
+    let mut mg = MoveGenerator::verif_blank();
+    let hits0 = mg.cache_hit_count();
+    let got = mg.generate_moves(&mut board, color(player_white));
+    let key = (a.hash, player_white as u8);
+    unsafe {
+        assert!(cwire::GET_CALLS == 1, "the move cache is consulted once");
+        assert!(cwire::GET_KEY.0 == key.0, "cache key carries this position's key");
+        assert!(cwire::GET_KEY.1 == key.1, "cache key carries the colour the moves were asked for");
+        if hit {
+            assert!(cwire::GEN_CALLS == 0 && cwire::PUT_CALLS == 0, "a hit is served without generating");
+            assert!(got.len() == 1 && got[0] == wire::marker(1), "a hit returns the stored list");
+            assert!(mg.cache_hit_count() == hits0 + 1);
+        } else {
+            assert!(cwire::GEN_CALLS == 1 && cwire::GEN_WHITE == player_white && cwire::GEN_BOARD == &board as *const Board as usize, "a miss generates for this board and colour");
+            assert!(cwire::PUT_CALLS == 1 && cwire::PUT_KEY == key, "a miss stores the result under the same key");
+            assert!(got.len() == 1 && got[0] == wire::marker(3), "a miss returns what was generated");
+        }
+    }
+    core::mem::forget(got);
+    core::mem::forget(mg);
+    core::mem::forget(board);
+}
+
+#[kani::proof]
+#[kani::unwind(8)]
+#[kani::stub(::smallvec::SmallVec::reserve_one_unchecked, stub_no_spill)]
+#[kani::stub(::smallvec::SmallVec::spilled, crate::move_generator::verif_never_spilled)]
+#[kani::stub(::smallvec::SmallVec::try_grow, crate::move_generator::verif_no_grow)]
+#[kani::stub(::lru::LruCache::get, crate::move_generator::kani_verif::cwire::LruStub::get)]
+#[kani::stub(::lru::LruCache::put, crate::move_generator::kani_verif::cwire::lru_put)]
+#[kani::stub(crate::move_generator::generate_valid_moves, crate::move_generator::kani_verif::cwire::gen_valid)]
+fn c02_wire_move_cache() {
+    c02_wire_moves();
+}
+
+#[kani::proof]
+#[kani::unwind(8)]
+#[kani::stub(crate::move_generator::targets::Targets::get_cached_attack, crate::move_generator::targets::Targets::cwire_get_cached)]
+#[kani::stub(crate::move_generator::targets::Targets::cache_attack, crate::move_generator::targets::Targets::cwire_cache_attack)]
+#[kani::stub(crate::move_generator::targets::Targets::generate_attack_targets, crate::move_generator::targets::Targets::stub_attack)]
+fn c02_wire_attack_cache() {
+    let x = any_disjoint();
+    let a = any_aux(kani::any());
+    let board = Board::verif_from_raw(&x, &a);
+    let player_white: bool = kani::any();
+    let cached: Option<u64> = if kani::any() { Some(kani::any()) } else { None };
+    let fresh: u64 = kani::any();
+    kani_att::reset([fresh, 0, 0, 0]);
+    unsafe {
+        cwire::AHIT = cached;
+        cwire::AGET_CALLS = 0;
+        cwire::APUT_CALLS = 0;
+    }
+    let mut mg = MoveGenerator::verif_blank();
+    let got = mg.get_attack_targets(&board, color(player_white));
+    unsafe {
+        assert!(cwire::AGET_CALLS == 1 && cwire::AGET == (player_white, a.hash), "the attack cache is consulted under (colour asked about, this position's key)");
+        match cached {
+            Some(v) => {
+                assert!(got.0 == v && kani_att::calls() == 0 && cwire::APUT_CALLS == 0, "a hit is served without generating");
+            }
+            None => {
+                assert!(kani_att::calls() == 1 && kani_att::color_white(0) == player_white && kani_att::board_occ(0) == x.occ(), "a miss generates for this board and colour");
+                assert!(cwire::APUT_CALLS == 1 && cwire::APUT == (player_white, a.hash, fresh), "a miss stores the result under the same key");
+                assert!(got.0 == fresh);
+            }
+        }
+    }
+    core::mem::forget(mg);
+    core::mem::forget(board);
+}
